@@ -29,7 +29,7 @@ COMPONENTS = {'real': ['real PrecipitateModel (analytic backend) + SinglePhaseMo
 def plan(tier):
     if tier == 'quick':
         return dict(runs=3000, batch=25, hard_timeout=600, soft_timeout=60)
-    return dict(runs=120000, batch=200, hard_timeout=900, soft_timeout=30)
+    return dict(runs=60000, batch=200, hard_timeout=900, soft_timeout=30)
 
 
 SPECIAL = ['0.0', '-1.0', 'inf', 'nan', '1e-300', '1e300', '-inf', '-0.0']
